@@ -490,7 +490,9 @@ func wrappingOrder(c *core.Ctx, r *core.Report) {
 		}
 		for _, call := range an.AllCalls(fn) {
 			nd, ok := call.(*ssa.Call)
-			if !ok || !an.IsFunc(an.Callee(nd), apiPkg, "NewDistribution") {
+			// NewDistribution, or the variant it hands its parameters on to
+			ndFn := c.MustFn("internal/trigger/api", "NewDistribution")
+			if !ok || an.Callee(nd) == nil || (an.Callee(nd) != ndFn && an.Callee(nd) != delegateTarget(ndFn)) || fn == ndFn {
 				continue
 			}
 			n++
